@@ -112,6 +112,18 @@ def respBytes : List HOp → List Bytes
   | .respData d :: t => d :: respBytes t
   | _ :: t => respBytes t
 
+/-- operations after which the code adds a `RequestBodyEnd` -/
+def isReqEndOp : HOp → Bool
+  | .reqEnd => true
+  | .reqAbort => true
+  | _ => false
+
+/-- request body ends among a stream's outputs -/
+def qEnds : List HOut → Nat
+  | [] => 0
+  | .qEnd :: t => qEnds t + 1
+  | _ :: t => qEnds t
+
 def isData : BOp → Bool
   | .data _ => true
   | .flush => false
